@@ -64,7 +64,13 @@ def _make(ctx, conv):
                 'clock': (('t',), numpy.array([5.0, 6.0]))}
         if POINT_TAKEN:
             data['tracked'] = (('point', 'y', 'x'), sym('tracked', (2, ny, nx)))
-        if INT_COORDS:
+        if INT_COORDS == 'descending':
+            # latitude stored from north to south, once with derived and (further down) stored bounds
+            ds = builders.cf1d(ny, nx, lat=numpy.array([11.0, 10.0]), lon=numpy.array([100.0, 103.0]), data_vars=data)
+        elif INT_COORDS == 'descending-stored':
+            ds = builders.cf1d(ny, nx, lat=numpy.array([11.0, 10.0]), lon=numpy.array([100.0, 103.0]), data_vars=data,
+                               lat_bounds=numpy.array([[10.5, 11.5], [9.5, 10.5]]), lon_bounds=numpy.array([[98.5, 101.5], [101.5, 104.5]]))
+        elif INT_COORDS:
             # whole-degree coordinates stored in integer types, odd spacings (cell edges are half-way values)
             ds = builders.cf1d(ny, nx, lat=numpy.array([10, 11], dtype='int32'), lon=numpy.array([100, 103], dtype='int64'), data_vars=data)
         else:
@@ -82,7 +88,13 @@ def _make(ctx, conv):
         lat, lon = 10.0 + jj, 100.0 + 2 * ii
         lonb = numpy.stack([lon - 1, lon + 1, lon + 1, lon - 1], axis=-1)
         latb = numpy.stack([lat - .5, lat - .5, lat + .5, lat + .5], axis=-1)
-        if conv == 'cf2d':
+        if INT_COORDS == 'misdim':
+            # bounds stored (x, y, 4) next to coordinates stored (y, x): not this grid's layout - ignored, cells derived
+            kwb = dict(lat_bounds=latb.transpose(1, 0, 2).copy() + 0.125, lon_bounds=lonb.transpose(1, 0, 2).copy() - 0.25, bounds_dims=(xd, yd, 'four'))
+            ds = (builders.cf2d if conv == 'cf2d' else builders.shoc_simple)(ny, nx, lat=lat, lon=lon, data_vars=data, **kwb)
+            cv = (CFGrid2D if conv == 'cf2d' else ShocSimple)(ds)
+            info = dict(kinds={'face': ((yd, xd), (ny, nx))}, geometry=[n for n in ds.variables if n not in data])
+        elif conv == 'cf2d':
             ds = builders.cf2d(ny, nx, lat=lat, lon=lon, lat_bounds=latb, lon_bounds=lonb, data_vars=data)
             cv = CFGrid2D(ds)
             info = dict(kinds={'face': ((yd, xd), (ny, nx))}, geometry=['lat', 'lon', 'lat_bnds', 'lon_bnds'])
@@ -446,6 +458,9 @@ CONVS = {'cf1d': ['face'], 'cf2d': ['face'], 'shoc_simple': ['face'],
 
 
 def cases(tier):
+    for conv in ('cf2d', 'shoc_simple'):
+        yield Case(f'points:{conv}:select_points:drop:2:misdim', body_points,
+                   dict(conv=conv, nreq=2, policy='drop', api='select_points', dimname=None, int_coords='misdim'), max_paths=50000, split=16)
     q = tier == 'quick'
     for conv in ('cf2d', 'shoc_simple'):
         yield Case(f'twisted:{conv}', body_twisted, dict(conv=conv), max_paths=50)
@@ -504,6 +519,9 @@ def cases(tier):
                 for kind in ('edge', 'face'):
                     yield Case(f'index:{conv}:{kind}:select_indexes2:transposed-tables', body_indexes,
                                dict(conv=conv, kind=kind, nreq=2, mode='select_indexes', transposed=True), max_paths=50000, split=16)
+            for variant in (('descending', 'descending-stored') if conv == 'cf1d' else ('misdim',) if conv in ('cf2d', 'shoc_simple') else ()):
+                yield Case(f'points:{conv}:select_points:drop:2:{variant}', body_points,
+                           dict(conv=conv, nreq=2, policy='drop', api='select_points', dimname=None, int_coords=variant), max_paths=50000, split=16)
             yield Case(f'points:{conv}:select_points:drop:2:integer-coordinates', body_points,
                        dict(conv=conv, nreq=2, policy='drop', api='select_points', dimname=None, int_coords=(conv == 'cf1d')), max_paths=50000, split=16)
         yield Case(f'points:{conv}:extract_dataframe:fill:custom', body_points,
